@@ -44,7 +44,7 @@ func used(name string) { StubsUsed[name] = true }
 func allConcrete(args []value) bool {
 	for _, a := range args {
 		switch a := a.(type) {
-		case *Sym, sstr:
+		case *Sym, sstr, lazyStr:
 			return false
 		case []value:
 			if !allConcrete(a) {
@@ -409,11 +409,21 @@ func init() {
 			if s, ok := a[0].(string); ok {
 				return strings.ToUpper(s)
 			}
+			if l, ok := a[0].(lazyStr); ok {
+				l.upper = true
+				if !l.float && l.base <= 10 {
+					l.upper = false
+				}
+				return l
+			}
 			return symCaseMap(a[0].(sstr), true)
 		},
 		"strings.ToLower": func(fr *frame, a []value) value {
 			if s, ok := a[0].(string); ok {
 				return strings.ToLower(s)
+			}
+			if l, ok := a[0].(lazyStr); ok && !l.float && !l.upper {
+				return l
 			}
 			return symCaseMap(a[0].(sstr), false)
 		},
@@ -506,6 +516,9 @@ func init() {
 		"strings.TrimSpace": func(fr *frame, a []value) value {
 			if allConcrete(a) {
 				return strings.TrimSpace(goStr(a[0]))
+			}
+			if l, ok := a[0].(lazyStr); ok {
+				return l // number texts have no blanks
 			}
 			return symTrimSpace(a[0].(sstr))
 		},
@@ -950,12 +963,11 @@ func symRuneClass(r *Sym, class string) value {
 // token: a string of one symbolic "digit-class" byte sequence is not needed by any harness, so
 // the value is concretised (forking over its feasible values, bounded at 64).
 func symFormatInt(v value, base int) value {
-	n := asInt64(v) // concretises
-	return strconv.FormatInt(n, base)
+	return lazyStr{sym: v.(*Sym), base: base}
 }
 
 func symFormatFloat(v value) value {
-	panic(inconclusive{"strconv.FormatFloat of a symbolic float (not encodable; use concrete floats)"})
+	return lazyStr{sym: v.(*Sym), base: 10, float: true}
 }
 
 func setStdGlobals(i *interpreter) {}
